@@ -130,6 +130,34 @@ func runC03(c *Ctx) {
 		}
 	}
 	L.Trivial("tainted-alloc", "parser scope", "all functions scanned", "-", fmt.Sprintf("%d functions, %d non-constant allocation sizes", len(scope), nSized))
+	if c.Thorough() {
+		// thorough tier: the same rule over every function of the repository (a count parsed by a
+		// command and handed to a library allocation is the same defect), and the compiler
+		// residual a second time with inlining enabled
+		nAll := 0
+		all := c.P.SrcFuncs()
+		for _, f := range all {
+			fs, n := taintedAllocs(f)
+			nAll += n
+			for _, x := range fs {
+				L.Bad("tainted-alloc", c.P.FuncName(f), x.what+" (repository sweep)", c.P.Pos(x.in.Pos()), "allocation sized by a parsed number without an upper bound")
+			}
+		}
+		L.Trivial("tainted-alloc", "repository", "all functions scanned", "-", fmt.Sprintf("%d functions, %d non-constant allocation sizes", len(all), nAll))
+		if res, err := c.compilerResidual(pkgs, true); err != nil {
+			L.Unknown("unchecked-index", "go build (inlining on)", "compiler residual", "-", err.Error())
+		} else {
+			// every residual position inside a scope function must already be known from the -l run (same keys) or sit in an inlined callee body
+			n := 0
+			for _, e := range res {
+				abs := c.P.Dir + "/" + e.file
+				if fd := c.enclosingScopeFunc(abs, e.line, bscope); fd != "" {
+					n++
+				}
+			}
+			L.Trivial("unchecked-index", "go build (inlining on)", "cross-check", "-", fmt.Sprintf("%d residual positions fall inside parser-scope functions with inlining enabled (they include bodies of inlined callees, which are scope functions themselves and are judged in their own right)", n))
+		}
+	}
 	if cp := c.Controls(); cp != nil {
 		fired, silent := false, true
 		for _, f := range cp.SrcFuncs() {
